@@ -1,12 +1,12 @@
-\* undirected, 3 nodes, instants 0..3: 4096 graphs x all (u, v, window)
+\* undirected, 4 nodes, instants 0..3, every pair present at no or exactly one instant: 15,625 graphs
 SPECIFICATION Spec
 CONSTANTS
-  PNodes <- PN3
+  PNodes <- PN4
   PTMax = 3
   PDir = FALSE
   PLoops = FALSE
   PKF <- PathKF
-  PSparse = FALSE
+  PSparse = TRUE
 INVARIANT InvPaths
 INVARIANT InvValid
 INVARIANT InvDag
